@@ -9,7 +9,7 @@ from ..cfg import calls_at
 from ..core import Checker
 from ..effects import destructive_kind, fs_like
 from ..loader import AnalysisError, Func, norm, walk_expr, walk_own
-from ..prov import ends_with_attrs, attr_chain, call_name, expand, get_arg, scope_of, is_marker, ELEM, ITEM, CTX
+from ..prov import is_accumulator, ends_with_attrs, attr_chain, call_name, expand, get_arg, scope_of, is_marker, ELEM, ITEM, CTX
 
 
 def _is_root(ck: Checker, fn: Func) -> bool:
@@ -335,6 +335,10 @@ def _check_linkrecord(ck: Checker, slice_) -> None:
                                     origins.add((ofn.qual, norm(oe)))
                         has_diff = any("diff" == t or t.endswith(".diff") or t == "diff" for _q, t in origins) or "diff" in argnames
                         has_written = any(("mtime" in t) or t == "{}" for _q, t in origins)
+                        for q, t in origins:
+                            of = next((f for f in slice_ if f.qual == q), None)
+                            if of is not None and t.isidentifier() and is_accumulator(of, t):
+                                has_written = True
                         ok = has_diff and has_written
             ck.require(ok, "C05.linkrecord", fn, c,
                        "link record's mtime token is computed from the diff and the mtimes of the files checkout wrote",
